@@ -102,6 +102,45 @@ Proof. exact c01_step_grow. Qed.
 Print Assumptions C01_step_is_grow.
 Check C01_step_is_grow : forall B T, c01_step B T = true -> c01_grow B T = true.
 
+(* third rung: surviving tables may also lose plain columns that no constraint of either side mentions,
+   and lose constraints of a kind that no column of the baseline table declares inline (c01_change) *)
+Theorem C01_change : forall B T, c01_change B T = true -> closes_gap B T = true.
+Proof. exact C01HistP.C01_change. Qed.
+Print Assumptions C01_change.
+Check C01_change : forall B T, c01_change B T = true -> closes_gap B T = true.
+
+Theorem C01_change_invariant : forall B T, c01_change B T = true ->
+  exists acts B',
+    diff_actions B T = Ok acts /\ apply_all B acts = Ok B' /\ baseline_ok B' = true
+    /\ diff_actions B' T = Ok [] /\ diff_actions T B' = Ok [].
+Proof. exact c01_change_sound. Qed.
+Print Assumptions C01_change_invariant.
+Check C01_change_invariant : forall B T, c01_change B T = true ->
+  exists acts B',
+    diff_actions B T = Ok acts /\ apply_all B acts = Ok B' /\ baseline_ok B' = true
+    /\ diff_actions B' T = Ok [] /\ diff_actions T B' = Ok [].
+
+Theorem C01_change_histories : forall H B T,
+  Grown c01_change_models H -> replay H = Ok B -> c01_change_models B T = true ->
+  exists p B',
+    plan_next T H = Ok p /\ closes_gap B T = true /\
+    replay (H ++ [fill_plan p B]) = Ok B' /\ baseline_ok B' = true /\
+    diff_actions B' T = Ok [] /\ diff_actions T B' = Ok [] /\
+    plan_next T (H ++ [fill_plan p B])
+      = Ok (mkPlan "" None None (next_version (H ++ [fill_plan p B])) []) /\
+    Grown c01_change_models (H ++ [fill_plan p B]).
+Proof. exact C01HistP.C01_change_histories. Qed.
+Print Assumptions C01_change_histories.
+Check C01_change_histories : forall H B T,
+  Grown c01_change_models H -> replay H = Ok B -> c01_change_models B T = true ->
+  exists p B',
+    plan_next T H = Ok p /\ closes_gap B T = true /\
+    replay (H ++ [fill_plan p B]) = Ok B' /\ baseline_ok B' = true /\
+    diff_actions B' T = Ok [] /\ diff_actions T B' = Ok [] /\
+    plan_next T (H ++ [fill_plan p B])
+      = Ok (mkPlan "" None None (next_version (H ++ [fill_plan p B])) []) /\
+    Grown c01_change_models (H ++ [fill_plan p B]).
+
 (* reduction to single tables: the plan closes the gap on the whole schema as soon as, for every table
    name, the subsequence of the plan naming that table, run on that table alone, ends in a
    normalisation fix-point the planner cannot tell from the model's table (c01_local, decidable);
@@ -344,3 +383,17 @@ Example C01_grow_nonvacuous :
         AddConstraint "t" (CUnique (Some "ua") ["a"; "b"]); AddConstraint "t" (CIndex None ["c"]);
         AddConstraint "t" (CForeignKey None ["c"] "new" ["id"] None None)].
 Proof. exact w_grow_hyp. Qed.
+
+(* a changing step outside c01_grow (11 actions of 9 kinds) *)
+Example C01_change_nonvacuous :
+  c01_change w_change_B w_change_T = true /\ c01_grow w_change_B w_change_T = false /\
+  loader_accepts w_change_T = true /\
+  diff_actions w_change_B w_change_T =
+    Ok [CreateTable "new" [pkcol "id"] []; DeleteTable "gone"; DeleteColumn "t" "b";
+        ModifyColumnType "t" "a" (TSimple Text) None; ModifyColumnNullable "t" "a" false None;
+        ModifyColumnDefault "t" "a" (Some "x");
+        AddColumn "t" (w_col "d" (TVarchar 8) true None (Some "new")) None;
+        RemoveConstraint "t" (CIndex None ["c"]); RemoveConstraint "t" (CCheck "pos" "c > 0");
+        AddConstraint "t" (CUnique None ["a"; "d"]);
+        AddConstraint "t" (CForeignKey None ["c"] "new" ["id"] None None)].
+Proof. exact w_change_hyp. Qed.
